@@ -16,8 +16,9 @@ Core Lean only.  Go facts mirrored here (including quirks):
 * `GetByteBuffer` hands out a pooled item *as it is* (it relies on `PutByteBuffer` having reset it),
   the two others re-slice on `Get` (`B[:0]`, resp. `B[:length]` for item buffers — that re-slice
   panics when `cap < length`);
-* `Put…` drops capacity 0 and capacity > max; `PutByteBuffer` only re-slices to length 0, the two
-  others zero the elements `[0, len)` (and *only* those) and re-slice to length 0;
+* `Put…` drops capacity 0 and capacity > max; `PutByteBuffer` only re-slices to length 0,
+  `PutByteSlicesBuf` zeroes the elements `[0, len)` (and only those), `putItemBuf` zeroes the whole
+  backing array `[0, cap)` (since the fix of C42-1; before it only `[0, len)`); both re-slice to 0;
 * `sync.Pool` is a bag that may return any stored item of the bucket, or nothing, and may forget
   items at any time: modelled by an explicit choice on `get` and a `forget` operation.
 
@@ -85,7 +86,7 @@ def Buf.reslice0 (b : Buf) : Buf := ⟨[], b.vis ++ b.hid⟩
 /-- `for i := range b.B { b.B[i] = zero }` -/
 def Buf.clearVis (b : Buf) : Buf := ⟨List.replicate b.vis.length false, b.hid⟩
 
-/-- `clear(b.B[:cap(b.B)])` — only used by the proposed fix. -/
+/-- `clear(b.B[:cap(b.B)])` -/
 def Buf.clearAll (b : Buf) : Buf := ⟨List.replicate b.vis.length false, List.replicate b.hid.length false⟩
 
 /-- `b.B = b.B[:n]`; `none` = slice bounds out of range panic. -/
@@ -187,8 +188,8 @@ def getItemBuf (p : Pools) (length : Int) (choice : Option Nat) : Pools × Res :
         | none => (p', .panic)
       | none => (p, .buf (Buf.fresh length.toNat (2 ^ idx)))
 
-/-- `putItemBuf`.  `clearToCap = false` is the code as it is (zeroes `[0, len)` only);
-`true` is the variant that zeroes the whole backing array (proposed fix, see Props/C42). -/
+/-- `putItemBuf`.  `clearToCap = true` is the code as it is (`clear(buf.B[:capacity])`);
+`false` is the code before the fix of C42-1 (zeroed `[0, len)` only). -/
 def putItemBufV (clearToCap : Bool) (p : Pools) (b : Buf) : Pools × Res :=
   let capacity := b.cap
   if capacity = 0 ∨ capacity > maxItemBufLength then (p, .buf b)
@@ -197,8 +198,9 @@ def putItemBufV (clearToCap : Bool) (p : Pools) (b : Buf) : Pools × Res :=
     let b := (if clearToCap then b.clearAll else b.clearVis).reslice0
     if idx ≥ nItemPools then (p, .panic) else (p.add idx b, .buf b)
 
-/-- THE ONE LINE to flip when `putItemBuf` is changed upstream to clear up to capacity. -/
-def itemFixApplied : Bool := false
+/-- Which variant `/repo` has (flipped to `true` together with the `fix:` commit for C42-1:
+`clear(buf.B[:capacity])`). -/
+def itemFixApplied : Bool := true
 
 def putItemBuf : Pools → Buf → Pools × Res := putItemBufV itemFixApplied
 
